@@ -568,7 +568,7 @@ public:
     /// \brief Move assignment.
     constexpr auto operator=(static_vector&& other)
         noexcept(noexcept(clear()) and noexcept(move_insert(begin(), other.begin(), other.end())))
-            -> static_vector& requires(is_assignable_v<reference, reference>) {
+            -> static_vector& requires(is_assignable_v<reference, value_type&&>) {
                 // Nothing to assert: size of other cannot exceed capacity because both
                 // vectors have the same type
                 clear();
